@@ -16,10 +16,54 @@ def frac(x):
     return Fraction(float(x))
 
 
+class CQ:
+    """Gaussian rational"""
+    __slots__ = ("re", "im")
+
+    def __init__(self, re_=0, im_=0):
+        self.re, self.im = Fraction(re_), Fraction(im_)
+
+    @staticmethod
+    def of(z):
+        if isinstance(z, CQ):
+            return z
+        z = complex(z)
+        return CQ(Fraction(z.real), Fraction(z.imag))
+
+    def __add__(self, o):
+        return CQ(self.re + o.re, self.im + o.im)
+
+    def __sub__(self, o):
+        return CQ(self.re - o.re, self.im - o.im)
+
+    def __mul__(self, o):
+        return CQ(self.re * o.re - self.im * o.im, self.re * o.im + self.im * o.re)
+
+    def conj(self):
+        return CQ(self.re, -self.im)
+
+    def __truediv__(self, o):
+        d = o.re * o.re + o.im * o.im
+        n = self * o.conj()
+        return CQ(n.re / d, n.im / d)
+
+    def __eq__(self, o):
+        return self.re == o.re and self.im == o.im
+
+    def is_zero(self):
+        return self.re == 0 and self.im == 0
+
+    def __complex__(self):
+        return complex(float(self.re), float(self.im))
+
+
 def qnum(z):
-    """complex/float -> Coq term of type qi (exact value of the float)"""
-    z = complex(z)
-    re_, im_ = frac(z.real), frac(z.imag)
+    """complex/float/CQ -> Coq term of type qi (exact value)"""
+    if isinstance(z, CQ):
+        re_, im_ = z.re, z.im
+    else:
+        z = complex(z)
+        re_, im_ = frac(z.real), frac(z.imag)
     if re_.denominator == 1 and im_.denominator == 1:
         return f"(qz ({re_.numerator}) ({im_.numerator}))"
     return f"(qic ({re_.numerator}) {re_.denominator} ({im_.numerator}) {im_.denominator})"
@@ -38,10 +82,34 @@ def qmat_g(rows):
 
 
 def qmat(a):
+    if isinstance(a, list):   # rows of CQ
+        return "[" + ";".join("[" + ";".join(qnum(x) for x in r) + "]" for r in a) + "]"
     a = np.asarray(a)
     if a.ndim == 1:
         a = a.reshape(-1, 1)
     return "[" + ";".join("[" + ";".join(qnum(x) for x in r) + "]" for r in a) + "]"
+
+
+def lu_rational(a, p):
+    """the exact factors of a = (L U)[p, :] with L unit lower triangular (unique for a non-singular a and the pivot order p
+    chosen by LAPACK), by elimination without pivoting on the row-permuted matrix over the Gaussian rationals; None if a pivot is 0"""
+    n = a.shape[0]
+    q = np.argsort(p)
+    M = [[CQ.of(a[int(q[i]), j]) for j in range(n)] for i in range(n)]
+    Lm = [[CQ(1 if i == j else 0) for j in range(n)] for i in range(n)]
+    for c in range(n):
+        if M[c][c].is_zero():
+            return None
+        for i in range(c + 1, n):
+            f = M[i][c] / M[c][c]
+            Lm[i][c] = f
+            for j in range(c, n):
+                M[i][j] = M[i][j] - f * M[c][j]
+    return Lm, M
+
+
+def cq_to_np(rows):
+    return np.array([[complex(x) for x in r] for r in rows])
 
 
 def nlist(xs):
